@@ -168,6 +168,21 @@ def run(ctx):
     for i, m in enumerate(bm):
         name = btab.machine(m)
         bss = byte_strings(ctx.rng, SYMS, 14)
+        # cross-overs between the code words of multi-byte symbols that leave one and the same state of THIS automaton
+        by_src = {}
+        for i_, a_, j_, w_ in m["arcs"]:
+            if a_ is not None and len(SYMS[a_].encode("utf-8")) > 1:
+                by_src.setdefault(i_, set()).add(a_)
+        for syms_ in by_src.values():
+            for a1 in syms_:
+                for a2 in syms_:
+                    e1, e2 = list(SYMS[a1].encode("utf-8")), list(SYMS[a2].encode("utf-8"))
+                    if a1 == a2 or len(e1) != len(e2):
+                        continue
+                    for pos in range(len(e1)):
+                        z = e1[:pos] + [e2[pos]] + e1[pos + 1:]
+                        if z != e1 and z != e2 and z not in bss:
+                            bss.append(z)
         for bs in bss:
             for xs in decodings(bs, SYMS):
                 btab.want((i, tuple(xs)), f"@call QcStar {name} {coq_str(xs)}")
